@@ -261,7 +261,13 @@ def run(ctx):
         for i, b in F.blocks(f):
             for s in b['stmts']:
                 if s['k'] == 'assign' and s['rv']['k'] == 'ref' and (CERR, FIELD) in F.fields_of(s['rv']['place']):
-                    if s['rv']['place']['local'] != 1:
+                    src_ = s['rv']['place']['local']
+                    if src_ != 1:
+                        # a reference to the argument handed on (an accessor method spliced in): follow it back
+                        rs_ = F.roots_place(f, F.single_defs(f), {'local': src_, 'proj': [], 'ty': {}})
+                        if rs_ and all(r_ == ('param', 1) for r_ in rs_):
+                            src_ = 1
+                    if src_ != 1:
                         rok = False
                         ctx.violation('C16.reader', 'c_abi::error_description', 'source', 'description read from something other than the argument', site=s['at'], config=cfg)
         ctx.instance('C16.reader', 'error_description: %d bodies, effects %s' % (len(rseen), sorted(k for k in ragg)), ok=rok, site=ed['at'])
